@@ -83,7 +83,8 @@ def _table(ctx):
         check(ctx, n, Program(n), bag)
     # strict containers never take str / Mapping (no dict or str to a list), no bool for an int Literal
     for n, lbl in [(spec.IterT("List", spec.AnyT()), "'a'"), (spec.IterT("List", spec.AnyT()), "{'a':1}"), (spec.IterT("Sequence", spec.StrT()), "'a'"),
-                   (spec.TupleT([spec.AnyT()]), "'a'"), (spec.TupleT([spec.AnyT()]), "{0:1}"), (spec.LiteralT((0, 1)), "True"), (spec.LiteralT((1, 2, 3, 4, 5)), "True"),
+                   (spec.TupleT([spec.AnyT()]), "'a'"), (spec.TupleT([spec.AnyT()]), "{0:1}"), (spec.IterT("List", spec.AnyT()), "MyStr('q')"),
+                   (spec.TupleT([spec.AnyT()]), "MyStr('q')"), (spec.IterT("Set", spec.StrT()), "MyStr('q')"), (spec.IterT("List", spec.AnyT()), "MyDict"), (spec.LiteralT((0, 1)), "True"), (spec.LiteralT((1, 2, 3, 4, 5)), "True"),
                    (spec.LiteralT((False, True)), "1")]:
         prog = Program(n)
         for dt in DEBUG_MODES:
